@@ -97,12 +97,12 @@ def _ordered(d, keys, slot, newkey):
     return out
 
 
-def classify_real(indict):
+def classify_real(indict, flags=None):
     import odetoolbox
     from odetoolbox.shapes import MalformedInputException
     tb.reset_config()
     try:
-        res = odetoolbox.analysis(json.loads(json.dumps(indict)), disable_stiffness_check=True)
+        res = odetoolbox.analysis(json.loads(json.dumps(indict)), disable_stiffness_check=True, **(flags or {}))
         return {"class": "ok", "n_solvers": len(res)}
     except MalformedInputException as e:
         msg = str(e)
@@ -112,11 +112,18 @@ def classify_real(indict):
         return {"class": "other-error", "type": type(e).__name__, "msg": str(e)[:100]}
 
 
+def _fi(case):
+    """the failing input as recorded in a replay: the dictionary alone when analysis() got no further arguments"""
+    if case.get("flags") or case.get("pre_calls"):
+        return {"indict": case["indict"], "flags": case.get("flags", {}), "pre_calls": case.get("pre_calls", [])}
+    return case["indict"]
+
+
 def case_validate(case):
     # earlier calls in the same process (their outcome is irrelevant): acceptance of an entry must not depend on them
     for pre in case.get("pre_calls", []):
         classify_real(pre)
-    return classify_real(case["indict"])
+    return classify_real(case["indict"], case.get("flags"))
 
 
 def _init_worker():
@@ -172,6 +179,13 @@ def run(ctx, driver):
         order = 1 + (j % 2)
         entry = wf_entry(rng, name, order)
         cases.append({"indict": {"dynamics": [entry]}, "pre_calls": [pre], "kind": "wellformed-after-option-call", "expect": "not-malformed", "order": order, "pos": 0})
+    # the verdict on an entry must not depend on the other arguments of analysis(): every 4th input is analysed with preserve_expressions,
+    # every 4th with the analytic solver disabled
+    for idx, c_ in enumerate(cases):
+        if idx % 4 == 1:
+            c_["flags"] = {"preserve_expressions": True}
+        elif idx % 4 == 3:
+            c_["flags"] = {"disable_analytic_solver": True}
     results = pool.run_cases("harness.props.c09", "case_validate", cases, timeout=60, init="_init_worker", deadline=ctx.deadline())
     ops = []
     for case, res in zip(cases, results):
@@ -183,21 +197,22 @@ def run(ctx, driver):
             continue
         ctx.count("kind:" + case["kind"].split("-slot")[0])
         ctx.count("order:%d" % case["order"])
+        ctx.count("flags:" + (",".join(sorted(case.get("flags", {}))) or "none"))
         ctx.note_nontrivial(json.dumps(case["indict"], sort_keys=True))
         cls = res["class"]
         sig = {"corruption": case["kind"].split("-slot")[0], "order": case["order"]}
         if case["expect"] == "not-malformed":
             if cls == "malformed":
-                ctx.fail("wellformed-rejected-as-malformed", case["indict"], {"observed": res, "signature": sig})
+                ctx.fail("wellformed-rejected-as-malformed", _fi(case), {"observed": res, "signature": sig})
             elif cls != "ok":
                 ctx.count("wellformed_other_error")
                 ctx.cov.setdefault("wellformed_other_errors", []).append(res)
         elif case["expect"] == "malformed":
             if cls != "malformed":
-                ctx.fail("corruption-not-rejected-as-malformed", case["indict"], {"corruption": case["kind"], "observed": res, "signature": sig})
+                ctx.fail("corruption-not-rejected-as-malformed", _fi(case), {"corruption": case["kind"], "observed": res, "signature": sig})
         else:
             if cls == "ok":
-                ctx.fail("corruption-accepted", case["indict"], {"corruption": case["kind"], "observed": res, "signature": sig})
+                ctx.fail("corruption-accepted", _fi(case), {"corruption": case["kind"], "observed": res, "signature": sig})
         if not case.get("skip_model"):
             ops.append((case, res))
     ctx.sample({"corruption": cases[5]["kind"], "indict": cases[5]["indict"], "impl": results[5]})
@@ -229,6 +244,12 @@ def run(ctx, driver):
 
 def replay(rp):
     tb.import_toolbox()
-    r = classify_real(rp["failing_input"])
+    fi = rp["failing_input"]
+    if "indict" in fi and "dynamics" not in fi:
+        for pre in fi.get("pre_calls", []):
+            classify_real(pre)
+        r = classify_real(fi["indict"], fi.get("flags"))
+    else:
+        r = classify_real(fi)
     print(json.dumps(r))
     return 0
